@@ -65,7 +65,7 @@ impl OligoCgrComputer {
         let buffer = reader
             .fill_buf()
             .map_err(|_| String::from("Invalid stream"))?;
-        let format = if buffer[0] == b'>' {
+        let format = if buffer.first() == Some(&b'>') {
             SeqFormat::Fasta
         } else {
             SeqFormat::Fastq
